@@ -53,14 +53,14 @@ def _build(ctx, sub):
     return exe, mexe
 
 
-def run_model(mexe, lines, timeout=1500):
+def run_model(mexe, lines, timeout=5400):
     # deep (non tail recursive) list functions of the extracted code need a large stack for MiB bodies
     out, st = vlib.run_sharded("/bin/sh", lines, args=["-c", "ulimit -s unlimited 2>/dev/null; exec " + mexe],
                                timeout=timeout)
     return out
 
 
-def run_impl(exe, lines, timeout=1500):
+def run_impl(exe, lines, timeout=5400):
     out, st = vlib.run_sharded(exe, lines, env=ENV, timeout=timeout)
     sem, health = [], []
     for l in out:
